@@ -237,8 +237,11 @@ example : ((digest 20 (.node (secItem 1 1) .unset []) [txt 2 [97], txt 3 [98], .
               .node (secItem 6 1) .unset [], txt 7 [100]]).map fun r => r.1.kids.map (·.it.level)) = some [101, 2] := by
   decide
 
-/-- **Paragraphs never contain paragraphs**, at any depth of the parsed tree, for every clean stream
-    whose (possibly pre-digested) items satisfy it. -/
+/-- **Paragraphs never contain paragraphs nor sectioning units**, at any depth of the parsed tree, for
+    every clean stream whose (possibly pre-digested) items satisfy it: every child of a paragraph-level
+    node has a level strictly above paragraph level (`Macro.paragraphs` stops regrouping at the first item
+    below paragraph level — `\paragraph` and `\subparagraph` included — and starts a new paragraph at a
+    paragraph token). -/
 theorem par_no_par (s out : List Tree) (hs : cleanL s = true) (hp : parNoParL s = true)
     (h : parse s = some out) : parNoParL out = true := by
   have := top_P closed_pnp _ [] s out (fun _ h => by cases h)
@@ -252,6 +255,13 @@ theorem par_no_par_step (f : Nat) (t : Tree) (s : List Tree) (t' : Tree) (s' : L
   ((digest_loop_P closed_pnp f).1 t s t' s' ht hs h).1.2
 
 example : parNoParL [.node (secItem 1 1) .unset [], txt 2 [97], txt 3 [98]] = true := by decide
+
+/-- `\subsubsection{..}a\paragraph{..}b\subparagraph{..}c`: the units of level 4 and 5 are children of the
+    unit above them, never of a paragraph (levels of the children of the level-3 unit, and of the level-4 unit) -/
+example : ((digest 20 (.node (secItem 1 3) .unset []) [txt 2 [97], .node (secItem 3 4) .unset [], txt 4 [98],
+              .node (secItem 5 5) .unset [], txt 6 [99]]).map fun r =>
+            (r.1.kids.map (·.it.level), r.1.kids.map fun k => k.kids.map (·.it.level))) =
+    some ([101, 4], [[1001], [101, 5]]) := by decide
 
 /-- the top-level loop labels everything it appends with the output container -/
 theorem parent_labels_top : ∀ (f : Nat) (acc s out : List Tree), top f acc s = some out →
